@@ -4,7 +4,8 @@
 
     - Y : what traefik/yaegi does.  [interp/cfg.go] genGlobalVars / getVars / genGlobalVarDecl /
           getVarDependencies (one node per valueSpec; dependencies = identifiers of the initialiser
-          expression looked up by name in the package scope; repeated stable-partition passes),
+          expression looked up by name in the package scope; scan for the first ready node, emit it,
+          restart the scan),
           [interp/program.go] Execute and [interp/src.go] importSrc (globals, init functions in
           source order, main; imported packages loaded depth first in import order, memoised).
     - G : what Go prescribes (spec "Package initialization", as implemented by go/types initorder and
@@ -57,43 +58,74 @@ Record node := mknode { nid : id; ndeps : list id; nlogs : list id }.
 (** [st] = identifiers of the nodes initialised so far. *)
 Definition ready (st : list id) (n : node) : bool := forallb (fun d => memb d st) (ndeps n).
 
-(** ** Y: genGlobalVarDecl
+(** ** Y: genGlobalVarDecl (with the fix "restart the scan after each emitted variable")
 
     [[
       for {
-        for _, n := range nodes {
+        for i, n := range nodes {
           canInit := all deps[n] inited
           if !canInit { revisit = append(revisit, n); continue }
           varNode.child = append(varNode.child, n); inited[n] = true
+          revisit = append(revisit, nodes[i+1:]...)
+          break
         }
         if len(revisit) == 0 || equalNodes(nodes, revisit) { break }
         nodes = revisit; revisit = []*node{}
       }
       if len(revisit) > 0 { return error "variable definition loop" }
     ]] *)
-Fixpoint y_pass (st : list id) (nodes : list node) : list node * list node * list id :=
+
+(** one scan: the node emitted (if any) and [revisit] when the scan ends *)
+Fixpoint y_pass (st : list id) (nodes : list node) : option node * list node :=
   match nodes with
-  | [] => ([], [], st)
+  | [] => (None, [])
   | n :: rest =>
-      if ready st n
-      then let '(e, r, st') := y_pass (nid n :: st) rest in (n :: e, r, st')
-      else let '(e, r, st') := y_pass st rest in (e, n :: r, st')
+      if ready st n then (Some n, rest)
+      else let '(e, r) := y_pass st rest in (e, n :: r)
   end.
 
 Definition is_nil {A} (l : list A) : bool := match l with [] => true | _ => false end.
 
-(** result: (nodes emitted in order, nodes left over = [revisit] at the break) *)
+(** result: (nodes emitted in order, nodes left over = [revisit] at the break).
+    Nothing emitted: [revisit] equals [nodes], the loop ends. *)
 Fixpoint y_loop (fuel : nat) (st : list id) (nodes : list node) : list node * list node :=
   match fuel with
   | O => ([], nodes)
   | S k =>
-      let '(e, r, st') := y_pass st nodes in
-      if is_nil r || (length r =? length nodes)%nat then (e, r)
-      else let '(e', r') := y_loop k st' r in (e ++ e', r')
+      let '(e, r) := y_pass st nodes in
+      match e with
+      | None => ([], r)
+      | Some n => if is_nil r then ([n], [])
+                  else let '(e', r') := y_loop k (nid n :: st) r in (n :: e', r')
+      end
   end.
 
 Definition y_sched (nodes : list node) : list node * list node :=
   y_loop (S (length nodes)) [] nodes.
+
+(** ** The loop as it was before the fix (kept only for the regression theorem
+    [C15_direct_regression]): a pass emitted every ready node before going back to an earlier
+    node that had become ready. *)
+Fixpoint old_pass (st : list id) (nodes : list node) : list node * list node * list id :=
+  match nodes with
+  | [] => ([], [], st)
+  | n :: rest =>
+      if ready st n
+      then let '(e, r, st') := old_pass (nid n :: st) rest in (n :: e, r, st')
+      else let '(e, r, st') := old_pass st rest in (e, n :: r, st')
+  end.
+
+Fixpoint old_loop (fuel : nat) (st : list id) (nodes : list node) : list node * list node :=
+  match fuel with
+  | O => ([], nodes)
+  | S k =>
+      let '(e, r, st') := old_pass st nodes in
+      if is_nil r || (length r =? length nodes)%nat then (e, r)
+      else let '(e', r') := old_loop k st' r in (e ++ e', r')
+  end.
+
+Definition old_sched (nodes : list node) : list node * list node :=
+  old_loop (S (length nodes)) [] nodes.
 
 (** ** G: "repeatedly initializing the next package-level variable that is earliest in declaration
        order and ready for initialization" *)
@@ -120,42 +152,6 @@ Fixpoint g_loop (fuel : nat) (st : list id) (pending : list node) : list node * 
 
 Definition g_sched (nodes : list node) : list node * list node :=
   g_loop (length nodes) [] nodes.
-
-(** ** The small repair of genGlobalVarDecl proposed in the report (NOT applied to the code):
-    restart the scan after each emitted variable.
-
-    [[
-        for i, n := range nodes {
-          ... if !canInit { revisit = append(revisit, n); continue }
-          varNode.child = append(varNode.child, n); inited[n] = true
-          revisit = append(revisit, nodes[i+1:]...)   // added
-          break                                       // added
-        }
-        if len(revisit) == 0 || equalNodes(nodes, revisit) { break }
-        nodes = revisit; revisit = []*node{}
-    ]] *)
-Fixpoint r_pass (st : list id) (nodes : list node) : option node * list node :=
-  match nodes with
-  | [] => (None, [])
-  | n :: rest =>
-      if ready st n then (Some n, rest)
-      else let '(e, r) := r_pass st rest in (e, n :: r)
-  end.
-
-Fixpoint r_loop (fuel : nat) (st : list id) (nodes : list node) : list node * list node :=
-  match fuel with
-  | O => ([], nodes)
-  | S k =>
-      let '(e, r) := r_pass st nodes in
-      match e with
-      | None => ([], r)
-      | Some n => if is_nil r then ([n], [])
-                  else let '(e', r') := r_loop k (nid n :: st) r in (n :: e', r')
-      end
-  end.
-
-Definition r_sched (nodes : list node) : list node * list node :=
-  r_loop (S (length nodes)) [] nodes.
 
 (** Every node is ready when its turn comes: the list is already in dependency order. *)
 Fixpoint all_ready_in_order (st : list id) (nodes : list node) : bool :=
@@ -272,8 +268,8 @@ Fixpoint sorted_from (p : pkg) (seen : list id) (specs : list spec) : bool :=
 Definition decl_sorted (p : pkg) : bool := sorted_from p [] (pspecs p).
 
 (** (2) Plain declarations: one variable per spec, no [var x, y = f()], no misleading identifier,
-    no function that reaches a variable, every referenced variable declared, no self reference;
-    and yaegi's passes never step over a node that has become ready ("no ready variable skipped"). *)
+    no function that reaches a variable, every referenced variable declared, no self reference
+    (in any order of declaration). *)
 Definition declared (p : pkg) (v : id) : bool := existsb (fun s => memb v (spec_names s)) (pspecs p).
 
 Definition plain_ref (p : pkg) (self : id) (r : ref) : bool :=
@@ -291,29 +287,6 @@ Definition plain_spec (p : pkg) (s : spec) : bool :=
   end.
 
 Definition plain (p : pkg) : bool := forallb (plain_spec p) (pspecs p).
-
-(** Along yaegi's run: whenever a node is emitted, none of the nodes skipped earlier in the same
-    pass is ready at that moment. *)
-Fixpoint pass_ok (skipped : list node) (st : list id) (nodes : list node) : bool :=
-  match nodes with
-  | [] => true
-  | n :: rest =>
-      if ready st n
-      then negb (existsb (ready st) skipped) && pass_ok skipped (nid n :: st) rest
-      else pass_ok (skipped ++ [n]) st rest
-  end.
-
-Fixpoint loop_ok (fuel : nat) (st : list id) (nodes : list node) : bool :=
-  match fuel with
-  | O => true
-  | S k =>
-      pass_ok [] st nodes &&
-      let '(e, r, st') := y_pass st nodes in
-      if is_nil r || (length r =? length nodes)%nat then true else loop_ok k st' r
-  end.
-
-Definition no_skipped_ready (p : pkg) : bool :=
-  loop_ok (S (length (y_nodes p))) [] (y_nodes p).
 
 (** * Whole programs: packages, imports, init functions, main *)
 
@@ -419,7 +392,7 @@ Fixpoint topo_listed (seen : list id) (ps : list package) : bool :=
   end.
 
 (** Side condition for whole programs. *)
-Definition pkg_side (p : pkg) : bool := decl_sorted p || (plain p && no_skipped_ready p).
+Definition pkg_side (p : pkg) : bool := decl_sorted p || plain p.
 
 Definition program_side (g : program) : bool :=
   pkgs_in_path_order g && forallb (fun pk => pkg_side (pk_body pk)) (packages g).
